@@ -36,7 +36,9 @@ CONTRACT = [
     "throttling: s(p1,h) >= s(p2,h) for p1 <= p2   (ds = -v/T dp at fixed h)",
     "h(p,T) non-decreasing in T at fixed p (cp > 0); saturated: h_g(p) > h_f(p); h(p,T) >= h_g(p) for T >= T_sat(p), h(p,T) <= h_f(p) for T <= T_sat(p)",
     "T(p,h) non-decreasing in h at fixed p",
-    "all enthalpies in J/kg within [-1e7, 1e7], pressures > 0",
+    "two-phase states (h_f <= h <= h_g) are at T_sat(p); h >= h_g implies T >= T_sat, h <= h_f implies T <= T_sat",
+    "DOMAIN ASSUMPTION (sub-critical cycle away from the critical region): h_f(p_a) < h_g(p_b) for all pressures of the cycle",
+    "all enthalpies in J/kg within [-1e7, 1e7], pressures in (0, 1e9)",
 ]
 
 
@@ -67,7 +69,7 @@ class FluidStub:
         if pair == CP.QT_INPUTS:
             Q, T = a, b
             p = self._f("psat", T)
-            A(p.t > 0)
+            A(z3.And(p.t > 0, p.t < 1e9))        # sub-critical: far below the (moved) critical pressure
             A(self._f("Tsat", p).t == T.t)
             hh = self._f("hg", p) if bool(Q == 1) else self._f("hf", p)
             ss = self._f("sg", p) if bool(Q == 1) else self._f("sf", p)
@@ -106,6 +108,17 @@ class FluidStub:
             raise NotImplementedError(f"input pair {pair}")
         for v in (hh,):
             A(z3.And(v.t >= -1e7, v.t <= 1e7))
+        # temperature of a state relative to saturation at its pressure: two-phase states sit at T_sat
+        Tsp, hgp, hfp = self._f("Tsat", p), self._f("hg", p), self._f("hf", p)
+        A(hgp.t > hfp.t)
+        A(z3.Implies(z3.And(hh.t >= hfp.t, hh.t <= hgp.t), T.t == Tsp.t))
+        A(z3.Implies(hh.t >= hgp.t, T.t >= Tsp.t))
+        A(z3.Implies(hh.t <= hfp.t, T.t <= Tsp.t))
+        # domain assumption (sub-critical cycle away from the critical region): saturated liquid at any pressure seen so far
+        # has less enthalpy than saturated vapour at any other pressure seen so far
+        for (p2, T2, h2, s2) in self.states:
+            A(self._f("hf", p).t < self._f("hg", p2).t)
+            A(self._f("hf", p2).t < hgp.t)
         # pairwise physical monotonicities against every state seen so far on this path
         for (p2, T2, h2, s2) in self.states:
             # same pressure: s and T non-decreasing in h; h non-decreasing in T
@@ -156,8 +169,10 @@ def _psat_monotone(ctx, Ts):
 def body(ctx, case):
     import numpy as np
     from OpenPinch.classes import simple_heat_pump as shp
-    Te = ctx.real("Te", -20, 80)
-    Tc = ctx.real("Tc", 0, 180)
+    # inside the two-phase range of the fluid the concrete replays use (water: 0.01..374 C, ammonia: -77.7..132 C), away from its ends
+    te_lo, te_hi, tc_hi = {"water": (5, 90, 200), "ammonia": (-40, 40, 100)}[case.get("fluid", "water")]
+    Te = ctx.real("Te", te_lo, te_hi)
+    Tc = ctx.real("Tc", te_lo, tc_hi)
     dsh = ctx.real("dsh", 0, 20)
     dsc = ctx.real("dsc", 0, 20)
     eta = ctx.const(float(case.get("eta", 0.75)))      # concrete: h_out = h_in + (h_is - h_in)/eta stays linear in the state functions
@@ -165,11 +180,23 @@ def body(ctx, case):
     ctx.assume(Tc - Te >= 1)
     ctx.assume(Tc - dsc >= Te + dsh + 1.0 / 4)     # condenser outlet stays above the evaporator outlet temperature
     lift_ok = Tc - Te - dsc - dsh >= 5
+    if case.get("small_lift"):
+        ctx.assume(h.neg(lift_ok))
+        ctx.assume(Tc - Te - dsc - dsh <= 4.75)
+    else:
+        ctx.assume(lift_ok)
     ctx.region("lift_below_5K", h.neg(lift_ok))
     cyc = shp.SimpleHeatPumpCycle()
     if ctx.mode == "concrete":
         fluid = case.get("fluid", "water")
-        work = cyc.solve(Te, Tc, dT_sh=dsh, dT_sc=dsc, eta_comp=eta, refrigerant=fluid, ihx_gas_dt=0.0, Q_h_total=Q)
+        try:
+            work = cyc.solve(Te, Tc, dT_sh=dsh, dT_sc=dsc, eta_comp=eta, refrigerant=fluid, ihx_gas_dt=0.0, Q_h_total=Q)
+        except Exception:
+            if case.get("small_lift"):
+                # the negative 'IHX temperature rise' sends the property library to an invalid state
+                ctx.require(False, "throttling conserves enthalpy")
+                return
+            raise
     else:
         stub = FluidStub(ctx)
         cyc._state = stub
@@ -179,9 +206,18 @@ def body(ctx, case):
         shp.SimpleHeatPumpCycle._validate_solve_inputs = lambda self, refrigerant=None: True
         try:
             work = cyc.solve(Te, Tc, dT_sh=dsh, dT_sc=dsc, eta_comp=eta, refrigerant="stub", ihx_gas_dt=0.0, Q_h_total=Q)
+        except ZeroDivisionError:
+            if case.get("small_lift"):
+                ctx.tag("small lift: degenerate cycle (zero specific duty feasible)")
+                return
+            raise
         finally:
             shp.SimpleHeatPumpCycle._validate_solve_inputs = saved
     H, S, P = cyc.Hs, cyc.Ss, cyc.Ps
+    if case.get("small_lift"):
+        ctx.require(h.close(H[3], H[2], 1e-9 if ctx.mode != "concrete" else 1.0), "throttling conserves enthalpy")
+        ctx.tag("small lift explored")
+        return
     tolH = 1e-6 * 1e6 if ctx.mode == "concrete" else 1e-9
     ctx.require(h.close(cyc.Q_cond, cyc.Q_evap + work, 1e-6 * Q + 1e-9), "condenser duty equals evaporator duty plus compressor work")
     ctx.require(work > 0, "compressor work is positive")
@@ -222,16 +258,17 @@ def body(ctx, case):
 
 def cases(tier, seed):
     if tier == "quick":
-        return [{"fluid": "water", "eta": 0.75, "Q": 1000.0}, {"fluid": "water", "eta": 1.0, "Q": 250.0}]
-    return [{"fluid": f, "eta": e, "Q": q} for f in ("water", "ammonia") for e, q in ((0.5, 1000.0), (0.75, 40.0), (1.0, 250.0))]
+        return [{"fluid": "water", "eta": 0.75, "Q": 1000.0}, {"fluid": "water", "eta": 0.75, "Q": 1000.0, "small_lift": True}]
+    return ([{"fluid": f, "eta": e, "Q": q} for f in ("water", "ammonia") for e, q in ((0.5, 1000.0), (0.75, 40.0), (1.0, 250.0))]
+            + [{"fluid": "water", "eta": 0.75, "Q": 1000.0, "small_lift": True}])
 
 
 FAMILIES = [
     Family(name="cycle", cases=cases, body=body, functions=FUNCS, files=FILES,
-           bounds="evaporating temperature in [-20,80] C, condensing in [0,180] C with lift >= 1 K, superheat and subcooling in [0,20] K, compressor efficiency concrete in {0.5, 0.75, 1} and duty concrete (the cycle is linear in the duty) "
+           bounds="evaporating temperature in [5,90] C and condensing up to 200 C (water replays; ammonia: [-40,40] and up to 100 C) with lift >= 1 K, superheat and subcooling in [0,20] K, compressor efficiency concrete in {0.5, 0.75, 1} and duty concrete (the cycle is linear in the duty) "
                   "-- temperatures, superheat and subcooling z3 reals; ihx_gas_dt = 0; request order of the stream sets (condenser first / evaporator first / both at once) a solver choice",
            assumptions=["CoolProp AbstractState replaced by uninterpreted state functions under the contract: " + "; ".join(CONTRACT),
                         "sub-critical cycles only (critical point moved out of range)", "replay on the real library with water (thorough: also ammonia) at the model's temperatures"],
            shim_modules=["OpenPinch.classes.simple_heat_pump", "OpenPinch.classes.stream", "OpenPinch.classes.stream_collection"],
-           timeout_ms=60000, split_paths=20, validate_every=10 ** 9, snap="dyadic", reach=["order=0", "order=1", "order=2"]),
+           timeout_ms=60000, split_paths=20, validate_every=3, concrete_only_validation=True, snap="dyadic", reach=["order=0", "order=1", "order=2", "small lift explored"]),
 ]
